@@ -179,6 +179,13 @@ def gen_directed(seed, rng):
         return None
     names = [o.name for o in core.Z.ops if not o.needs and core.Z.cov_first.get(o.name)]
     a = rng.choice(names)
+    from sim.pool import catalog as _C0
+
+    if rng.random() < 0.06:
+        # a share of the directed runs is about the classes whose behaviour follows a late converter registration
+        l3 = [nm for nm in names if core.Z.op_by_name[nm].ck in _C0.L3_SENSITIVE]
+        if l3:
+            a = rng.choice(l3)
     table = lines_for("all")
     lazy = sorted(core.Z.cov_lazy.get(a, frozenset()) & table)
     first = sorted(core.Z.cov_first[a] & lines_for("writers"))
